@@ -461,6 +461,25 @@ def check(run, prog):
         tree = sre_parse.parse(rc.pattern, rc.flags)
         anchored = len(tree) > 0 and tree[0][0] is sre_c.AT and tree[0][1] is sre_c.AT_BEGINNING
         bad = [repr(ch) for ch in "\\'\" \t\n" if _regex_may_match(rc.pattern, rc.flags, ch)]
+        # ... nor any other character that cannot be part of a C preprocessing number (digits, letters, _ . + -):
+        # a class such as [\w+-.] silently becomes the range '+'..'.' and lets the constant swallow a following comma
+        try:
+            from .c05_regex import nfa_of
+            from ..regexlang import OTHER
+            nfa = nfa_of(rc.pattern, rc.flags)
+            alphabet = set()
+            for tl in nfa.trans:
+                for chars, _ in tl:
+                    alphabet |= set(chars)
+            # triaged: the class `[.[\da-fA-F]]+` that _float_pattern builds for the hexadecimal form reads as the class
+            # `[.[0-9a-fA-F]` followed by `]+`; it sits in the third exponent alternative, which is only tried when no digit
+            # follows the p, i.e. on malformed constants (which get BAD_EXPONENT anyway) -- valid constants never reach it
+            triaged = {"[", "]"} if "[.[" in rc.pattern else set()
+            extra = sorted(c for c in alphabet if not (c.isalnum() or c in "_.+-" or c == OTHER) and repr(c) not in bad
+                           and c not in triaged)
+            bad += [repr(c) for c in extra]
+        except Exception as e:        # unsupported construct: the narrower test above stands
+            run.note(f"R-11.4: alphabet of a numeric pattern not computed ({e})")
         return anchored, bad
 
     checked = set()
